@@ -14,7 +14,7 @@ fn any_rule(rules: &'static [&'static str]) -> Box<crate::screen::Judge> {
 }
 
 pub const SINGLE_RULES: &[&str] = &[
-    "log-missing", "row-duplicated", "residue-row", "frame-row-missing", "blank-row", "blank-row-missing", "row-order",
+    "log-missing", "row-duplicated", "row-accounting", "residue-row", "frame-row-missing", "blank-row", "blank-row-missing", "row-order",
     "cursor-not-fresh-line", "bar-row-in-scrollback", "panic",
 ];
 
@@ -221,12 +221,12 @@ pub const MULTI_RULES: &[&str] = &[
 
 pub fn run(id: &str, cfg: &RunCfg) -> PropResult {
     let (p, quick, thorough) = prop(id);
-    let report = if let Some(case) = cfg.case.as_ref().filter(|c| c.starts_with('u') || c.starts_with('k') || c.starts_with('v') || c.starts_with('i') || c.starts_with('q') || c.starts_with('g')) {
+    let report = if let Some(case) = cfg.case.as_ref().filter(|c| c.starts_with('u') || c.starts_with('k') || c.starts_with('v') || c.starts_with('i') || c.starts_with('q') || c.starts_with('g') || c.starts_with('x')) {
         let mut it = case[1..].split(':');
         let seed: u64 = it.next().and_then(|s| s.parse().ok()).unwrap_or(cfg.seed);
         let idx: u64 = it.next().and_then(|s| s.parse().ok()).unwrap_or(0);
         let mut r = crate::report::Report::default();
-        r.add(idx, if case.starts_with('g') { super::racelanes::retarget_window_case(seed, idx) } else if case.starts_with('u') { super::racelanes::suspend_race_case(seed, idx) } else if case.starts_with('v') { super::racelanes::move_cursor_finish_case(seed, idx) } else if case.starts_with('i') { super::racelanes::iter_finish_case(seed, idx) } else if case.starts_with('q') { super::racelanes::sequential_bars_case(seed, idx) } else { super::racelanes::ticker_race_case(seed, idx) });
+        r.add(idx, if case.starts_with('x') { super::racelanes::geometry_sweep_case(idx) } else if case.starts_with('g') { super::racelanes::retarget_window_case(seed, idx) } else if case.starts_with('u') { super::racelanes::suspend_race_case(seed, idx) } else if case.starts_with('v') { super::racelanes::move_cursor_finish_case(seed, idx) } else if case.starts_with('i') { super::racelanes::iter_finish_case(seed, idx) } else if case.starts_with('q') { super::racelanes::sequential_bars_case(seed, idx) } else { super::racelanes::ticker_race_case(seed, idx) });
         r
     } else if let Some(case) = cfg.case.as_ref().filter(|c| c.starts_with('c')) {
         let mut it = case[1..].split(':');
@@ -266,6 +266,10 @@ pub fn run(id: &str, cfg: &RunCfg) -> PropResult {
             r.merge(crate::report::run_parallel_tagged('v', nv, workers(), |i| super::racelanes::move_cursor_finish_case(cfg.seed, i)));
             let ni = if cfg.thorough { 200_000 } else { 4_000 };
             r.merge(crate::report::run_parallel_tagged('i', ni, workers(), |i| super::racelanes::iter_finish_case(cfg.seed, i)));
+        }
+        if id == "C19" {
+            // exhaustive slice: every width 1..=300 x lines of k*width-1 / k*width / k*width+1 columns, k 1..=8
+            r.merge(crate::report::run_parallel_tagged('x', 300 * 24, workers(), |i| super::racelanes::geometry_sweep_case(i)));
         }
         if id == "C01" || id == "C19" {
             // usage part: standalone bars one after the other on the same terminal
